@@ -13,6 +13,7 @@ type SchemaOpts struct {
 	EmptyCtor     int // a single-constructor type may have no fields
 	ModeInSum     int // a constructor of a multi-constructor type may have mode-conditional fields
 	Interleave    int // constructors of one type need not be adjacent
+	Enum          int // a multi-constructor type may consist of field-less constructors only (boolTrue/boolFalse idiom)
 	NestedVectors int
 }
 
@@ -163,13 +164,16 @@ func RandomSchema(r Rand, o SchemaOpts) *Schema {
 			}
 			cn, tn := g.name()
 			inter := one(r, o.Interleave)
+			enum := one(r, o.Enum)
 			for v := 0; v < k; v++ {
 				c := &Combinator{Name: cn + variants[v], HasID: true, ID: g.id(), Result: tn}
 				min := 0
 				if r.Intn(3) > 0 {
 					min = 1
 				}
-				c.Fields = g.fields(one(r, o.ModeInSum), min)
+				if !enum {
+					c.Fields = g.fields(one(r, o.ModeInSum), min)
+				}
 				if inter && v > 0 {
 					pending = append(pending, c)
 				} else {
@@ -212,6 +216,42 @@ func RandomSchema(r Rand, o SchemaOpts) *Schema {
 			cons = append(cons, c)
 			g.singles = append(g.singles, c)
 		}
+	}
+	var enumUser *Combinator
+	enumType := ""
+	if o.Enum > 0 {
+		// at least one enum-like type, and one struct that holds it every way a type can be held:
+		// plain field, mode-conditional field, vector element (a function returning it is added below)
+		for _, tn := range g.sums {
+			all := true
+			for _, c := range g.byTypeCount(cons, tn) {
+				all = all && len(c.Fields) == 0
+			}
+			if all {
+				enumType = tn
+				break
+			}
+		}
+		if enumType == "" {
+			cn, tn := g.name()
+			k := 2 + r.Intn(4)
+			for v := 0; v < k; v++ {
+				cons = append(cons, &Combinator{Name: cn + variants[v], HasID: true, ID: g.id(), Result: tn})
+			}
+			g.sums = append(g.sums, tn)
+			enumType = tn
+		}
+		et := Type{Kind: KBoxed, Name: enumType}
+		cn, tn := g.name()
+		enumUser = &Combinator{Name: cn, HasID: true, ID: g.id(), Result: tn, Fields: []Field{
+			{Name: "kind", Type: et},
+			{Name: "mode", Type: Type{Kind: KNat}},
+			{Name: "seqno", Type: Type{Kind: KInt}},
+			{Name: "state", Type: et, Cond: true, CondField: "mode", CondBit: r.Intn(32)},
+			{Name: "item", Type: Type{Kind: KVector, Elem: &et}},
+			{Name: "lt", Type: Type{Kind: KLong}}}}
+		cons = append(cons, enumUser)
+		g.singles = append(g.singles, enumUser)
 	}
 	if o.ModeInSum > 0 {
 		have := false
@@ -276,6 +316,15 @@ func RandomSchema(r Rand, o SchemaOpts) *Schema {
 		}
 		f.Result = res.Result
 		funs = append(funs, f)
+	}
+	if enumType != "" && o.MaxFunctions > 0 {
+		g.n++
+		funs = append(funs, &Combinator{Name: fmt.Sprintf("liteServer.getKind%d", g.n), HasID: true, ID: g.id(), Result: enumType,
+			Fields: []Field{{Name: "id", Type: Type{Kind: KInt}}, {Name: "want", Type: Type{Kind: KBoxed, Name: enumType}}}})
+		if r.Intn(2) == 0 {
+			g.n++
+			funs = append(funs, &Combinator{Name: fmt.Sprintf("liteServer.getKinds%d", g.n), HasID: true, ID: g.id(), Result: enumUser.Result})
+		}
 	}
 	s, err := New(cons, funs)
 	if err != nil {
